@@ -1,0 +1,46 @@
+//go:build verif
+
+package loaders
+
+import (
+	"time"
+
+	"github.com/piprate/json-gold/ld"
+)
+
+// Read-only accessors used by the verification harness (/verif, property C19).
+// Compiled only with the build tag "verif"; they add no behaviour.
+
+// VerifCacheEntry is a copy of one entry of memoryCacheEngine.cache.
+type VerifCacheEntry struct {
+	Doc        *ld.RemoteDocument
+	ExpireTime time.Time
+}
+
+// VerifLoaderCacheEngine returns the cache engine a loader made by
+// NewDocumentLoader uses (nil when caching is switched off).  ok is false
+// when l was not made by NewDocumentLoader.
+func VerifLoaderCacheEngine(l ld.DocumentLoader) (engine CacheEngine, ok bool) {
+	d, ok := l.(*documentLoader)
+	if !ok {
+		return nil, false
+	}
+	return d.cacheEngine, true
+}
+
+// VerifMemoryCacheEntries returns a copy of the raw cache map (not the
+// embedded documents) of an engine made by NewMemoryCacheEngine.  ok is false
+// for any other engine.
+func VerifMemoryCacheEntries(e CacheEngine) (entries map[string]VerifCacheEntry, ok bool) {
+	m, ok := e.(*memoryCacheEngine)
+	if !ok {
+		return nil, false
+	}
+	m.m.RLock()
+	defer m.m.RUnlock()
+	entries = make(map[string]VerifCacheEntry, len(m.cache))
+	for k, v := range m.cache {
+		entries[k] = VerifCacheEntry{Doc: v.remoteDocument, ExpireTime: v.expireTime}
+	}
+	return entries, true
+}
